@@ -9,6 +9,7 @@ VERIF = os.path.dirname(os.path.dirname(os.path.abspath(__file__)))
 sys.path.insert(0, VERIF)
 sys.dont_write_bytecode = True
 
+from h2lint import run  # noqa: E402
 props = [json.loads(l) for l in open(os.path.join(VERIF, 'properties.jsonl'))]
 checks = []
 na = []
@@ -29,7 +30,7 @@ for p in props:
         'level_claimed': {
             'category': 'other',
             'text': 'Static analysis over the compiler\'s MIR of the current tree; decides structural necessary conditions of the property on every path, not the behaviour itself. '
-                    + mod.EXPLANATION + ' NOT DECIDED: ' + getattr(mod, 'NOT_DECIDED', ''),
+                    + run.full_explanation(mod, pid) + ' NOT DECIDED: ' + getattr(mod, 'NOT_DECIDED', ''),
             'design_ref': 'DESIGN.md section 4, ' + pid,
         },
         'level_note': 'Trusted base: rustc nightly MIR construction and Instance::try_resolve; driver/ (h2facts); the h2lint engine; hand-written / third-party reference tables under ref/. '
